@@ -38,7 +38,10 @@ def real_param(pid):
     import sympy
 
     th, beta, gamma, y, x3 = sympy.Symbol("theta"), sympy.Symbol("beta"), sympy.Symbol("gamma"), sympy.Symbol("y"), sympy.Symbol("x[3]")
-    return {"int": 1, "float": 0.5, "theta": th, "gamma": gamma, "x[3]": x3, "0.25*theta + beta": 0.25 * th + beta, "x[3] + 2*y": x3 + 2 * y}[pid]
+    S = sympy.Symbol
+    return {"int": 1, "float": 0.5, "theta": th, "gamma": gamma, "x[3]": x3, "0.25*theta + beta": 0.25 * th + beta, "x[3] + 2*y": x3 + 2 * y,
+            "eta[1]": S("eta[1]"), "theta[1]": S("theta[1]"), "a[0]*alpha[0]": S("a[0]") * S("alpha[0]"), "pi": sympy.pi, "Symbol(pi)": S("pi"),
+            "w[2]": S("w[2]"), "w_2": S("w_2"), "-theta": -th, "1/3": sympy.Rational(1, 3), "theta**2 - phi/3": th**2 - S("phi") / 3}[pid]
 
 
 _DEFS = {}
@@ -138,9 +141,41 @@ def base_params(g):
     return tuple(g.params)
 
 
+def k5_collision(gate):
+    """names that the gate's parameters use BOTH for a sympy constant (pi, E, I, ...) and for a symbol: the serialised text
+    cannot tell them apart (known finding K5); returns the substitution constant -> symbol that the format then performs"""
+    import sympy
+    from sympy.core.numbers import ImaginaryUnit, NumberSymbol
+
+    consts, syms = {}, {}
+    for prm in base_params(gate):
+        if isinstance(prm, sympy.Basic):
+            for a_ in prm.atoms(NumberSymbol, ImaginaryUnit):
+                consts[str(a_)] = a_
+            for s_ in prm.free_symbols:
+                syms[str(s_)] = s_
+    return {consts[k_]: syms[k_] for k_ in consts if k_ in syms}
+
+
+def rebuild(g, newparams):
+    """the same gate tree (wrapper by wrapper, through the constructors) over the base gate with other parameters"""
+    from orquestra.quantum.circuits._gates import ControlledGate, Dagger, Exponential, Power
+
+    if isinstance(g, ControlledGate):
+        return ControlledGate(rebuild(g.wrapped_gate, newparams), g.num_control_qubits)
+    if isinstance(g, Dagger):
+        return Dagger(rebuild(g.wrapped_gate, newparams))
+    if isinstance(g, Power):
+        return Power(rebuild(g.wrapped_gate, newparams), g.exponent)
+    if isinstance(g, Exponential):
+        return Exponential(rebuild(g.wrapped_gate, newparams))
+    return g.replace_params(newparams)
+
+
 def compare(desc, how, orig, back, out, matrices=True):
     import sympy
 
+    k5_ops = {}
     if back.n_qubits != orig.n_qubits:
         out.append(("width", "%s via %s: width %d became %d" % (desc, how, orig.n_qubits, back.n_qubits)))
     if len(back.operations) != len(orig.operations):
@@ -154,6 +189,12 @@ def compare(desc, how, orig, back, out, matrices=True):
             continue
         pa, pb = base_params(a.gate), base_params(b.gate)
         if len(pa) != len(pb) or not all(params_same(x, y) for x, y in zip(pa, pb)):
+            col = k5_collision(a.gate)
+            if col and len(pa) == len(pb) and all(params_same(sympy.sympify(x).subs(col) if isinstance(x, sympy.Basic) else x, y) for x, y in zip(pa, pb)):
+                # exactly the known finding: the constant came back as the symbol of the same name, nothing else differs
+                k5_ops[i] = col
+                out.append(("KNOWN:K5", "%s via %s: parameters %s came back as %s (the constant(s) %s read back as the symbol(s) of the same name)" % (desc, how, pa, pb, sorted(map(str, col)))))
+                continue
             out.append(("params", "%s via %s: parameters %s came back as %s" % (desc, how, pa, pb)))
             continue
         if [str(s) for s in a.gate.free_symbols] != [str(s) for s in b.gate.free_symbols]:
@@ -184,6 +225,13 @@ def compare(desc, how, orig, back, out, matrices=True):
     if list(map(str, orig.free_symbols)) != list(map(str, back.free_symbols)):
         out.append(("free-symbols:circuit", "%s via %s: circuit free symbols %s came back as %s" % (desc, how, orig.free_symbols, back.free_symbols)))
     if not (back == orig):
+        if k5_ops:
+            # equality can only fail because of those operations: with the known substitution applied to the original they are equal
+            from orquestra.quantum.circuits import Circuit
+
+            ops2 = [(rebuild(o.gate, tuple(sympy.sympify(x).subs(k5_ops[j]) if isinstance(x, sympy.Basic) else x for x in base_params(o.gate)))(*o.qubit_indices) if j in k5_ops else o) for j, o in enumerate(orig.operations)]
+            if back == Circuit(ops2, n_qubits=orig.n_qubits):
+                return
         out.append(("equality", "%s via %s: the deserialised circuit does not compare equal to the original" % (desc, how)))
 
 
@@ -193,7 +241,7 @@ def check_case(ctx, c):
     out = []
     desc = "Circuit([%s], n_qubits=%d)" % (", ".join("%s%s" % (tree_str(o["g"]), tuple(o["qs"])) for o in c["ops"]), c["n"])
     old = signal.signal(signal.SIGALRM, _alarm)
-    signal.alarm(6 if ctx.tier == "quick" else 30)
+    signal.alarm(3 if ctx.tier == "quick" else 30)
     try:
         for api in (False, True):
             try:
@@ -310,7 +358,9 @@ def check_process_history(ctx, h):
             out.append(("history:poison-raises", "round trip of Circuit([RX(%s)(0)]) raised %s: %s" % (name, type(ex).__name__, str(ex)[:150])))
     for c in h["cases"]:
         for k, m in check_case(ctx, c):
-            if k != "TIMEOUT":
+            if k.startswith("KNOWN:"):
+                out.append((k, m))
+            elif k != "TIMEOUT":
                 out.append(("history:" + k, "after circuits with the symbols %s had been deserialised in the same process: %s" % (POISON, m)))
     seen, uniq = set(), []
     for k, m in out:
@@ -322,15 +372,17 @@ def check_process_history(ctx, h):
 
 def run(ctx):
     quick = ctx.tier == "quick"
-    allb = "{1, 2, 3, 4, 5, 6, 7, 8, 9, 10, 11, 12}"
+    allb = "{1, 2, 3, 4, 5, 6, 7, 8, 9, 10, 11, 12, 13, 14, 15, 16, 17, 18, 19}"
     if quick:
-        runs = [dict(MaxOps=1, MaxWrap=2, Bases=allb), dict(MaxOps=1, MaxWrap=3, Bases="{1, 3, 7}"), dict(MaxOps=2, MaxWrap=1, Bases="{2, 4, 7, 9, 11}")]
+        runs = [dict(MaxOps=1, MaxWrap=2, Bases="{1, 2, 3, 4, 5, 6, 7, 8, 9, 10, 11, 12}"), dict(MaxOps=1, MaxWrap=1, Bases="{13, 14, 15, 16, 17, 18, 19}"), dict(MaxOps=1, MaxWrap=3, Bases="{1, 3, 7}"), dict(MaxOps=2, MaxWrap=1, Bases="{2, 4, 7, 9, 11}"),
+                dict(MaxOps=2, MaxWrap=1, Bases="{14, 15, 18}", CtrlOnly=True), dict(MaxOps=2, MaxWrap=2, Bases="{3}", CtrlOnly=True), dict(MaxOps=2, MaxWrap=0, Bases="{2, 13, 14, 15, 16, 19}")]
     else:
-        runs = [dict(MaxOps=1, MaxWrap=3, Bases=allb), dict(MaxOps=2, MaxWrap=1, Bases=allb), dict(MaxOps=3, MaxWrap=1, Bases="{2, 7, 9}")]
+        runs = [dict(MaxOps=1, MaxWrap=3, Bases=allb), dict(MaxOps=2, MaxWrap=1, Bases=allb), dict(MaxOps=3, MaxWrap=1, Bases="{2, 7, 9}"),
+                dict(MaxOps=3, MaxWrap=2, Bases="{3}", CtrlOnly=True), dict(MaxOps=3, MaxWrap=1, Bases="{14, 15, 18}", CtrlOnly=True)]
     ctx.bounds = {"run%d" % i: r for i, r in enumerate(runs)}
     cases, seen = [], set()
     for r in runs:
-        res = ctx.tlc("Serde", constants=dict(r, Deep=True, FullTable=True, Emitting=True), invariants=INV, action_constraints=["Emit"], coverage=False, timeout=5000)
+        res = ctx.tlc("Serde", constants=dict(dict(CtrlOnly=False), **r, Deep=True, FullTable=True, Emitting=True), invariants=INV, action_constraints=["Emit"], coverage=False, timeout=5000)
         for e in res.emitted:
             k = json.dumps([e["n"], e["ops"]], sort_keys=True)
             if k not in seen:
@@ -338,7 +390,7 @@ def run(ctx):
                 cases.append(e)
     # the two constructions as found must be refuted by TLC (design-level findings F9, F10)
     for consts, what in ((dict(Deep=False, FullTable=True), "definitions collected from top-level gates only"), (dict(Deep=True, FullTable=False), "one-shot formals-only symbol table of custom gate instances")):
-        r_ = ctx.tlc("Serde", constants=dict(MaxOps=1, MaxWrap=1, Bases="{7, 9}", Emitting=False, **consts), invariants=["RoundTripIsIdentity"], coverage=False, timeout=600, allow_violation=True)
+        r_ = ctx.tlc("Serde", constants=dict(MaxOps=1, MaxWrap=1, Bases="{7, 9}", Emitting=False, CtrlOnly=False, **consts), invariants=["RoundTripIsIdentity"], coverage=False, timeout=600, allow_violation=True)
         if "RoundTripIsIdentity" not in r_.violated:
             raise TLCError("vacuity: the construction as found (%s) is not refuted" % what)
     if len(cases) < 300:
@@ -350,11 +402,13 @@ def run(ctx):
         for key, msg in fails:
             if key == "TIMEOUT":
                 ctx.not_evaluated += 1
+            elif key.startswith("KNOWN:"):
+                ctx.known(key[6:], msg)
             else:
                 ctx.violation(key, msg, c)
     # process histories: name-colliding circuits first, then a sample of the cases that mention symbols or custom gates
     rng = random.Random(ctx.seed + 5)
-    interesting = [c for c in cases if c["defs"] or any("theta" in json.dumps(o) or "x[3]" in json.dumps(o) for o in c["ops"])]
+    interesting = [c for c in cases if c["defs"] or any("theta" in json.dumps(o) or "x[3]" in json.dumps(o) or "pi" in json.dumps(o) or "w_2" in json.dumps(o) for o in c["ops"])]
     interesting.sort(key=lambda c: json.dumps([c["n"], c["ops"]], sort_keys=True))     # TLC's emission order varies
     rng.shuffle(interesting)
     per = 6
@@ -362,7 +416,10 @@ def run(ctx):
     for h, fails in zip(hists, ctx.pmap(check_process_history, hists, chunksize=1)):
         ctx.count({"k": "process-history", "first": POISON, "then": [[tree_str(o["g"]) for o in c["ops"]] for c in h["cases"]]}, kind="process history")
         for key, msg in fails:
-            ctx.violation(key, msg, h)
+            if key.startswith("KNOWN:"):
+                ctx.known(key[6:], msg)
+            else:
+                ctx.violation(key, msg, h)
     ctx.assumptions.append("symbol names: identifiers (also ones sympy knows as functions: gamma, beta) and name[index]; a plain symbol x together with x[3] is outside the domain (the textual format cannot tell them apart); custom gate names avoid built-in names and the wrapper markers")
     ctx.assumptions.append("matrix comparisons run under a per-case time limit; cases over the limit are counted as not evaluated")
 
@@ -371,11 +428,13 @@ def replay(ctx, case):
     if case.get("k") == "process-history":
         ctx.count({"k": "process-history"})
         for key, msg in check_process_history(ctx, case):
-            ctx.violation(key, msg, case)
+            ctx.known(key[6:], msg) if key.startswith("KNOWN:") else ctx.violation(key, msg, case)
         return
     if case.get("k") == "tlc":
         raise TLCError("a TLC counterexample is replayed by re-running the check")
     ctx.count({"k": "circuit"})
     for key, msg in check_case(ctx, case):
-        if key != "TIMEOUT":
+        if key.startswith("KNOWN:"):
+            ctx.known(key[6:], msg)
+        elif key != "TIMEOUT":
             ctx.violation(key, msg, case)
